@@ -543,6 +543,21 @@ def r13_positions_and_lengths(idx, r):
         r.require(seen[k] == t, f"cycles-schema:{k}:{t}", ds, msg=f"`{k}` is coerced to {seen[k]}; it must be {t}: a fractional {k} is silently truncated and the step lengths no longer sum to availability x cycle length")
 
 
+def r14_previous_value_is_a_snapshot(idx, r):
+    """The coupler compares the value of this iteration with the value it stored in the previous one.  Arrays and lists are supported values:
+    stored by reference, an interface that updates its array in place hands the coupler the same object twice, eps is 0 and the node is declared
+    converged after the first iteration.  The stored value must be a copy."""
+    f = idx.method("armi.interfaces.TightCoupler", "storePreviousIterationValue")
+    val = f.params()[1]
+    st = [s_ for s_ in iter_stores(f.node) if s_.chain == "self._previousIterationValue"]
+    if len(st) != 1:
+        raise AnchorMissing("TightCoupler.storePreviousIterationValue: self._previousIterationValue = ...")
+    v = st[0].value
+    copied = isinstance(v, ast.Call) and (dotted(v.func) in ("copy.deepcopy", "copy.copy", "np.array", "np.copy", "deepcopy", "list") or call_attr(v) == "copy") and val in norm(v)
+    r.require(copied, "storePreviousIterationValue:stores-a-copy", f, node=st[0].stmt,
+              msg=f"`{norm(st[0].stmt)}` keeps the caller's own object: for an array updated in place the 'previous' and the 'current' value are one object, eps is always 0 and the coupled iteration stops after one pass")
+
+
 def run(idx, chk):
     chk.explanation = (
         "C15: the operator's main, cycle and node loops, _interactAll, the six interactAllX entry points, getActiveInterfaces, the tight "
@@ -573,3 +588,5 @@ def run(idx, chk):
                  necessary="every event is delivered for every admitted history, including a coupling cap of zero iterations")
     chk.run_rule("R15.13", "addInterface honours index 0; detailed cycle lengths and availability factors are real-valued", lambda r: r13_positions_and_lengths(idx, r), floor=5,
                  necessary="interfaces are called in stack order; step lengths sum to availability x cycle length")
+    chk.run_rule("R15.14", "the coupler stores a copy of the previous iteration's value", lambda r: r14_previous_value_is_a_snapshot(idx, r), floor=1,
+                 necessary="the coupled iteration at a node runs until the couplers have really converged or the cap is reached")
